@@ -102,6 +102,10 @@ class Raised(Exception):
     pass
 
 
+class Unspecified(Exception):
+    pass
+
+
 def apply_model(m, op):
     """Apply op to model container m.  Returns description; raises Raised(exc) if the builtin raises."""
     v = copy.deepcopy(_unjson(op['v']))
@@ -174,7 +178,9 @@ def apply_model(m, op):
                 m.clear()
             elif name == 'set_child':
                 if not (-n <= i <= n):
-                    i = max(-n, min(n, i))
+                    # what ayns.set_child does beyond the append position / below -len is not stated anywhere: the operation is
+                    # still applied to the node, the model is re-read from it afterwards and only the consistency invariants are checked
+                    raise Unspecified((i, v))
                 if i == n:
                     m.append(v)
                 else:
@@ -308,9 +314,12 @@ def run_case(case):
         m = _mget(model, path)
         node = _nget(root, path)
         before = copy.deepcopy(model)
+        unspecified = False
         try:
             name, args = apply_model(m, op)
             raised = None
+        except Unspecified as u:
+            name, args, raised, unspecified = 'set_child', u.args[0], None, True
         except Raised as r:
             raised = r.args[0]
             name = op['mop'] if isinstance(m, dict) else op['lop']
@@ -329,6 +338,14 @@ def run_case(case):
         except Exception as e:      # noqa
             node_raised = e
         hist = '\nhistory:\n  ' + '\n  '.join(history)
+        if unspecified:
+            labels.add('list.set_child-out-of-range(consistency only)')
+            # adopt whatever content the node has now (read through the child API) and go on checking consistency
+            resynced = O.plain(root)
+            model.clear()
+            model.update(resynced)
+            check_invariants(root, model, history)
+            continue
         if raised is not None:
             labels.add('model-raises')
             if node_raised is None:
